@@ -48,6 +48,11 @@ def run(ck: Check) -> int:
     for _ in range(n_gram):
         p = gen.gen_seq(R, 2, True, R.randint(1, 4))
         gram.append(p)
+    # bracket expressions as token sequences: classes, literals, ranges, negation in every order (added after seeded change
+    # C01d: a POSIX class earlier in the bracket made a LATER range hyphen literal — `[[:digit:]a-f]`)
+    BT = ['a', 'f', '-', '0', '[:digit:]', '[:alpha:]', '[:punct:]', '!', 'Z', ']']
+    import itertools as _it
+    brk = ['[' + ''.join(t) + ']' for L in range(1, 5 if quick else 6) for t in _it.product(BT, repeat=L)]
     alpha = 'ab.*?[]!()|' if quick else 'ab.*?[]!()|+@\\-'
     exh = list(gen.exhaustive(alpha, 3 if quick else 4))
 
@@ -59,6 +64,8 @@ def run(ck: Check) -> int:
         for p in gram:
             fl = R.choice(fsets)
             cases.append((p, fl, R.random() < 0.2 and all(ord(c) < 256 for c in p)))
+        for k, p in enumerate(brk):
+            cases.append((p, fsets[k % len(fsets)], False))
         streams.k1(sr, drv, cases)
         sr.note = ('K1 regex text, fnmatch-mode flag sets {DOTMATCH,EXTMATCH,IGNORECASE,CASE}+FORCEUNIX, '
                    f'exhaustive strings <= {3 if quick else 4} over {alpha!r} and {len(gram)} grammar patterns, str+bytes')
@@ -81,7 +88,8 @@ def run(ck: Check) -> int:
                    "(the object of C01_partial) on grammar patterns inside the stated scope; 'oos'/'none' = outside scope")
     ck.stream('K1prime-tidy', s_tidy)
 
-    names = [n for n in gen.names_upto('ab.A-', 3) if n] + ['a.b', 'ab.a', 'a..b', 'abab', 'a\n', 'b-a.', 'a.txt', '\n']
+    names = [n for n in gen.names_upto('ab.A-', 3) if n] + ['a.b', 'ab.a', 'a..b', 'abab', 'a\n', 'b-a.', 'a.txt', '\n',
+                                                                 '0', '5', 'e', 'f', 'g', 'Z', '!', ']', '[', ',', 'xa', 'xe-', 'x-', 'x0']
 
     def s_k2(sr):
         cases = [(p, R.choice(fsets) | F.EXTMATCH, False) for p in gram[: (1500 if quick else 20000)]]
@@ -103,6 +111,10 @@ def run(ck: Check) -> int:
             if R.random() < 0.25:
                 fl |= F.IGNORECASE
             cases.append((p, fl))
+        for k, p in enumerate(brk if (deep or not quick) else brk[::3]):
+            cases.append((p, F.FORCEUNIX | F.EXTMATCH | F.DOTMATCH | (F.IGNORECASE if k % 5 == 0 else 0)))
+            if k % 4 == 0:
+                cases.append(('x' + p + '*', F.FORCEUNIX | F.EXTMATCH))
         encn = ' '.join(common.enc(n) for n in names)
         outs = drv.ask_many([f'spec {int(bool(fl & F.IGNORECASE))} 1 {int(bool(fl & F.DOTMATCH))} {common.enc(p)} {encn}' for p, fl in cases]) \
             if drv else []
